@@ -62,6 +62,28 @@ static void mutate_setup_options(Rng& rng, SolverConfig& c, std::string& what)
     }
 }
 
+static void apply_changed(GMGPolar& g, const SolverConfig& a, const SolverConfig& b)
+{
+    if (a.divideBy2 != b.divideBy2) g.divideBy2(b.divideBy2);
+    if (a.nr_exp != b.nr_exp) g.nr_exp(b.nr_exp);
+    if (a.extrapolation != b.extrapolation) g.extrapolation(static_cast<ExtrapolationType>(b.extrapolation));
+    if (a.fmg != b.fmg) g.FMG(b.fmg);
+    if (a.strategy != b.strategy) g.stencilDistributionMethod(b.strategy ? StencilDistributionMethod::CPU_GIVE : StencilDistributionMethod::CPU_TAKE);
+    if (a.cache_prof != b.cache_prof) g.cacheDensityProfileCoefficients(b.cache_prof);
+    if (a.cache_geo != b.cache_geo) g.cacheDomainGeometry(b.cache_geo);
+    if (a.maxLevels != b.maxLevels) g.maxLevels(b.maxLevels);
+    if (a.dirbc != b.dirbc) g.DirBC_Interior(b.dirbc);
+    if (a.maxIterations != b.maxIterations) g.maxIterations(b.maxIterations);
+    if (a.rel_tol != b.rel_tol) g.relativeTolerance(b.rel_tol);
+    if (a.abs_tol != b.abs_tol) g.absoluteTolerance(b.abs_tol);
+    if (a.norm != b.norm) g.residualNormType(static_cast<ResidualNormType>(b.norm));
+    if (a.cycle != b.cycle) g.multigridCycle(static_cast<MultigridCycleType>(b.cycle));
+    if (a.pre != b.pre) g.preSmoothingSteps(b.pre);
+    if (a.post != b.post) g.postSmoothingSteps(b.post);
+    if (a.fmg_iters != b.fmg_iters) g.FMG_iterations(b.fmg_iters);
+    if (a.fmg_cycle != b.fmg_cycle) g.FMG_cycle(static_cast<MultigridCycleType>(b.fmg_cycle));
+}
+
 static void run_case(CaseCtx& c)
 {
     Rng& rng = c.rng;
@@ -82,7 +104,7 @@ static void run_case(CaseCtx& c)
     cfg.fmg_iters = rng.range(0, 3);
     cfg.fmg_cycle = rng.range(0, 2);
     cfg.cycle = rng.range(0, 2);
-    cfg.maxLevels = rng.pick({-1, -1, 2, 3});
+    cfg.maxLevels = rng.pick({-1, -1, 2, 3, 6, 5}); // 5, 6: caps above what the small grids allow (as in convergence_order.cpp)
     cfg.maxIterations = rng.pick({150, 150, 3, 10});
     cfg.rel_tol = rng.pick({1e-6, 1e-8});
     cfg.abs_tol = 1e-8;
@@ -96,6 +118,9 @@ static void run_case(CaseCtx& c)
     c.announce(std::string("ex") + std::to_string(cfg.extrapolation) + (cfg.fmg ? "/fmg" : "/nofmg"));
 
     std::unique_ptr<GMGPolar> g = cfg.make_api();
+    SolverConfig prev_cfg = cfg;
+    const bool full_reapply = rng.coin(0.25); // a quarter of the histories re-apply all options at every step
+    c.obs.params.b("reapply_all_options_each_step", full_reapply);
     std::string hist;
     int resolves = 0, resetups = 0, steps = 0;
     std::string ex_seq = std::to_string(cfg.extrapolation);
@@ -134,7 +159,13 @@ static void run_case(CaseCtx& c)
                 need_setup = true;
             }
         }
-        cfg.apply_options(*g);
+        // Step 0 sets every option; later steps call only the setters of the options that changed, as an application
+        // would (re-applying the whole option set before each setup() would mask an option that the library overwrote).
+        if (step == 0 || full_reapply)
+            cfg.apply_options(*g);
+        else
+            apply_changed(*g, prev_cfg, cfg);
+        prev_cfg = cfg;
         if (need_setup) {
             g->setup();
             did_setup = true;
